@@ -2,6 +2,7 @@ import Nsq.Model.Line
 import Nsq.Model.ProtoV2
 import Nsq.Model.HttpApi
 import Nsq.Model.HttpFull
+import Nsq.Model.Identify
 import Nsq.Spec.ProtoSpec
 /-!
 Driver for engine E3 (proto): one operation per input line, one canonical answer line out.
@@ -258,6 +259,27 @@ def stepLine (st : DState) (line : String) : DState × String :=
       (st.setBroker cid r.2,
        s!"W={HttpApi.showStatus r.1.status} CT={if r.1.ctJson then 1 else 0} X={if r.1.nsqHdr then 1 else 0} K={showBody r.1.body} B={showBroker r.2}")
     | _, _, _, _ => (st, "bad-op")
+  | ["idn", cid, hb, obs, obt, mt, sr, fn, tls, defl, snap, dl, hcid, hhost, hua, hreg, hzone, maxDefl, auth] =>
+    match st.confs.find? (·.1 == cid), unhex hcid, unhex hhost, unhex hua, unhex hreg, unhex hzone with
+    | some (_, dc), some cid', some host, some ua, some reg, some zone =>
+      let x : Identify.IdFull :=
+        { d := { heartbeat := parseInt hb, outBufSize := parseInt obs, outBufTimeout := parseInt obt,
+                 msgTimeout := parseInt mt, sampleRate := parseInt sr, featureNegotiation := b01 fn,
+                 tlsv1 := b01 tls, deflate := b01 defl, snappy := b01 snap },
+          deflateLevel := parseInt dl, info := ⟨cid', host, ua, reg, zone⟩ }
+      let nc : Identify.NConf :=
+        { maxDeflateLevel := parseInt maxDefl, maxMsgTimeoutMs := dc.conf.maxMsgTimeoutMs, authRequired := b01 auth }
+      let c0 : Identify.Client := { info := ⟨[], [], [], [], []⟩, conn := freshConn dc.hbNs dc.obtNs dc.mtNs }
+      let showC (c : Identify.Client) : String :=
+        s!"C={c.conn.hbNs},{c.conn.obSize},{c.conn.obtNs},{c.conn.sampleRate},{c.conn.msgTimeoutNs} M={hex c.info.clientID},{hex c.info.hostname},{hex c.info.userAgent},{hex c.info.region},{hex c.info.zone}"
+      let bi (b : Bool) : String := if b then "1" else "0"
+      match Identify.identifyFull dc.conf nc c0 x with
+      | .badBody c => (st, s!"O=badbody {showC c} D=- U=-")
+      | .ok c => (st, s!"O=ok {showC c} D=- U=-")
+      | .failed c => (st, s!"O=failed {showC c} D=- U=-")
+      | .doc c r n =>
+        (st, s!"O=doc {showC c} D={r.maxRdyCount},{r.maxMsgTimeout},{r.msgTimeout},{bi r.tlsv1},{bi r.deflate},{r.deflateLevel},{r.maxDeflateLevel},{bi r.snappy},{r.sampleRate},{bi r.authRequired},{r.outputBufferSize},{r.outputBufferTimeout} U={if n.tlsv1 then "-" else bi n.snappy ++ bi n.deflate}")
+    | _, _, _, _, _, _ => (st, "bad-op")
   | ["jsarr", h] =>
     match unhex h with
     | some b => (st, if HttpFull.isStrArrayJson b then "accept" else "reject")
